@@ -628,7 +628,21 @@ def sched_oracle(run, corr, deep, n_quick=260, n_thorough=4000):
     # (a preemption point between any two statements; not compared with the interleaving model, judged by the oracle only)
     if found < 3:
         nl = run.scale(30, 400) * (3 if deep else 1)
-        sub = scen[:nl]
+        # every kind of racing operation is represented; scenarios in which a power-off races a tick that resolves hopping
+        # frequencies (the configuration POWEROFF drops) come first
+        def prio(s):
+            ops, race, info = s
+            hop = any("5345544648" in o.upper() for o in ops)          # "SETFH" in a command's hex
+            return (0 if (hop and info["kind"].startswith("poweroff")) else 1 if hop else 2)
+        order = sorted(range(len(scen)), key=lambda i: (prio(scen[i]), i))
+        by_kind, sub = {}, []
+        for i in order:
+            kd = scen[i][2]["kind"]
+            if by_kind.get(kd, 0) < max(2, nl // 6):
+                by_kind[kd] = by_kind.get(kd, 0) + 1
+                sub.append(scen[i])
+            if len(sub) >= nl:
+                break
         llines, lmeta = [], []
         for mode in ("L", "S"):
             # L: the tick parked before each of its line events, the socket operation runs there;
